@@ -632,6 +632,9 @@ func resetIntern() {
 	quantMu.Lock()
 	quantMemo = map[int]bool{}
 	quantMu.Unlock()
+	symsMu.Lock()
+	symsMemo = map[int][]string{}
+	symsMu.Unlock()
 }
 
 // runBoundedParallel: split into prefixes in-process, then fan out to worker subprocesses.
